@@ -40,6 +40,73 @@ def _mk_case(rows):
     return {"pil": [["PEP%d" % i, PEP, list(r)] for i, r in enumerate(rows)]}
 
 
+def check_groups(case, mode, groups, what=None):
+    """the C03 statement of one grouping mode ("subset" | "no" | "pseudo_gene") on the peptide list case["pil"], for the
+    nested list `groups` some grouping call returned; None, or what is wrong.  Used by P.oracle on the direct calls and by
+    harness/pipeline_oracles.py:oracle_c03 on the groups the whole inference function handed to its first competition."""
+    ps = _pepsets(case)
+    observed = set(ps)
+
+    def partition(groups, what):
+        flat = [p for g in groups for p in g]
+        if any(len(g) == 0 for g in groups):
+            return what + ": empty group"
+        if len(flat) != len(set(flat)):
+            return what + ": a protein occurs twice: %r" % (groups,)
+        if set(flat) != observed:
+            return what + ": groups cover %r, observed proteins are %r" % (sorted(flat), sorted(observed))
+        return None
+
+    if mode == "subset":
+        key = what or "subset"
+        r = partition(groups, key)
+        if r:
+            return r
+        for g in groups:
+            lead = g[0]
+            for x in g:
+                if not ps[x] <= ps[lead]:
+                    return "%s: member %s has a peptide the leading protein %s lacks (group %r)" % (key, x, lead, g)
+            for q in observed - set(g):
+                if ps[lead] <= ps[q]:
+                    return "%s: leading protein %s (group %r) has its peptide set contained in that of %s outside the group" % (key, lead, g, q)
+        maximal = {frozenset(ps[p]) for p in observed if not any(ps[p] < ps[q] for q in observed)}
+        if len(groups) != len(maximal):
+            return "%s: %d groups but %d distinct inclusion-maximal peptide sets" % (key, len(groups), len(maximal))
+        return None
+    if mode == "no":
+        r = partition(groups, "no grouping")
+        if r:
+            return r
+        if any(len(g) != 1 for g in groups):
+            return "no grouping: a group is not a singleton: %r" % (groups,)
+        return None
+    if mode != "pseudo_gene":
+        raise ValueError("unknown grouping mode %r" % (mode,))
+    r = partition(groups, "pseudo_gene")
+    if r:
+        return r
+    parent = {p: p for p in observed}
+
+    def find(a):
+        while parent[a] != a:
+            parent[a] = parent[parent[a]]
+            a = parent[a]
+        return a
+
+    for e in case["pil"]:
+        for p in e[2][1:]:
+            parent[find(p)] = find(e[2][0])
+    comps = {}
+    for p in observed:
+        comps.setdefault(find(p), set()).add(p)
+    want = sorted(sorted(c) for c in comps.values())
+    got = sorted(sorted(g) for g in groups)
+    if want != got:
+        return "pseudo_gene: groups %r are not the connected components %r of the shares-a-peptide relation" % (got, want)
+    return None
+
+
 class P(Prop):
     id = "C03"
     quick_cases = 600
@@ -193,65 +260,12 @@ class P(Prop):
     def oracle(self, case, impl_out):
         if not isinstance(impl_out, dict) or "subset" not in impl_out:
             return "no groups returned: %r" % (impl_out,)
-        ps = _pepsets(case)
-        observed = set(ps)
         if not impl_out.get("index_ok"):
             return "a returned ProteinGroups object has an invalid or wrong index"
-
-        def partition(groups, what):
-            flat = [p for g in groups for p in g]
-            if any(len(g) == 0 for g in groups):
-                return what + ": empty group"
-            if len(flat) != len(set(flat)):
-                return what + ": a protein occurs twice: %r" % (groups,)
-            if set(flat) != observed:
-                return what + ": groups cover %r, observed proteins are %r" % (sorted(flat), sorted(observed))
-            return None
-
-        for key in ("subset", "generate"):
-            groups = impl_out[key]
-            r = partition(groups, key)
+        for key, mode in (("subset", "subset"), ("generate", "subset"), ("no", "no"), ("pseudo_gene", "pseudo_gene")):
+            r = check_groups(case, mode, impl_out[key], key if mode == "subset" else None)
             if r:
                 return r
-            for g in groups:
-                lead = g[0]
-                for x in g:
-                    if not ps[x] <= ps[lead]:
-                        return "%s: member %s has a peptide the leading protein %s lacks (group %r)" % (key, x, lead, g)
-                for q in observed - set(g):
-                    if ps[lead] <= ps[q]:
-                        return "%s: leading protein %s (group %r) has its peptide set contained in that of %s outside the group" % (key, lead, g, q)
-            maximal = {frozenset(ps[p]) for p in observed if not any(ps[p] < ps[q] for q in observed)}
-            if len(groups) != len(maximal):
-                return "%s: %d groups but %d distinct inclusion-maximal peptide sets" % (key, len(groups), len(maximal))
-        groups = impl_out["no"]
-        r = partition(groups, "no grouping")
-        if r:
-            return r
-        if any(len(g) != 1 for g in groups):
-            return "no grouping: a group is not a singleton: %r" % (groups,)
-        groups = impl_out["pseudo_gene"]
-        r = partition(groups, "pseudo_gene")
-        if r:
-            return r
-        parent = {p: p for p in observed}
-
-        def find(a):
-            while parent[a] != a:
-                parent[a] = parent[parent[a]]
-                a = parent[a]
-            return a
-
-        for e in case["pil"]:
-            for p in e[2][1:]:
-                parent[find(p)] = find(e[2][0])
-        comps = {}
-        for p in observed:
-            comps.setdefault(find(p), set()).add(p)
-        want = sorted(sorted(c) for c in comps.values())
-        got = sorted(sorted(g) for g in groups)
-        if want != got:
-            return "pseudo_gene: groups %r are not the connected components %r of the shares-a-peptide relation" % (got, want)
         return None
 
     # ---------------------------------------------------------------- bookkeeping
@@ -293,3 +307,27 @@ class P(Prop):
         for i, e in enumerate(pil):
             for t in range(len(e[2])):
                 yield {"pil": pil[:i] + [[e[0], e[1], e[2][:t] + e[2][t + 1 :]]] + pil[i + 1 :]}
+
+
+# ---- pipeline-level cases: the whole `get_protein_group_results` for every shipped method file against the composed Lean
+# model PgFdr.Pipeline.run, with the C03 statement as the oracle: the groups handed to the FIRST competition must be the
+# grouping the request asked for (the method file's; pseudo_gene when pseudo-genes are requested) of the case's peptide
+# list (harness/pipeline_oracles.py:oracle_c03 -> check_groups).  Half of these cases are preceded, in the same process, by a
+# request of the same method with the OTHER pseudo-gene switch (recorded in the case as "prior_request"): what one request
+# returns must not depend on what was requested before
+import pipeline_oracles as _po  # noqa: E402
+
+_BaseP = P
+
+
+class P(_po.PipelineMixin2, _BaseP):
+    pipeline_share = 0.06      # ~36 of the 600 quick cases
+    pipeline_prior_request_share = 0.5
+    pipeline_pseudo_share = 0.3
+    pipeline_oracles = ("c03",)
+    rule = _BaseP.rule + (
+        "; 6 % of the cases run the whole inference function (harness/pipeline.py: a shipped method file through "
+        "methods.parse_method_toml, 30 % with pseudo-genes requested, half of them preceded by a request of the same method "
+        "with the other pseudo-gene switch; structured peptide lists of harness/gen_pil.py) and state C03 on the groups "
+        "handed to the first competition"
+    )
